@@ -101,7 +101,7 @@ def vocab_lookup(call, vocab=VOCAB):
 
 
 class Eff:
-    __slots__ = ('kind', 'path', 'call', 'chain', 'must', 'forall', 'args', 'level', 'level_bb')
+    __slots__ = ('kind', 'path', 'call', 'chain', 'must', 'forall', 'args', 'level', 'level_bb', 'mapping')
 
     def __init__(self, kind, path, call, chain, must, forall=None, args=None):
         self.kind = kind
@@ -113,6 +113,7 @@ class Eff:
         self.args = args        # all argument values
         self.level = None       # set by outcomes(): index of the site chain level the effect belongs to
         self.level_bb = None    # block of the call (in that level's function) it was expanded from
+        self.mapping = None     # parameter bindings of the function containing `call` (values in entry terms)
 
     def where(self):
         return self.call.where() if self.call else (self.chain[-1].where() if self.chain else '-')
@@ -472,7 +473,9 @@ class Effects:
             args = tuple(self.subst(self.slicer.operand(fn, a), mapping) for a in c.args)
             path = args[pidx] if pidx is not None and pidx < len(args) else None
             fa = self.subst(forall, mapping) if forall is not None else None
-            out.append(Eff(kind, path, c, chain, mode == 'must', fa, args))
+            ef = Eff(kind, path, c, chain, mode == 'must', fa, args)
+            ef.mapping = mapping
+            out.append(ef)
             return
         callees = self.prog.callee_fns(c)
         for g in callees:
@@ -605,3 +608,18 @@ def outcomes(E, fn, mapping=None, chain=(), stack=()):
         else:
             res.append(Outcome(('tuple', ()), must, may, conds, (site,)))
     return res
+
+
+def guards_of(E, e, prog=None):
+    """branch decisions under which effect e runs, in the terms of the entry function: the conditions dominating the
+    call inside its own function (and, for a closure, those around the place where the closure is created), with the
+    function's parameters replaced by what the call chain passed in.  [(Cond, substituted value, substituted subject)]"""
+    from .guards import conditions_ctx
+    out = []
+    fn = e.call.fn
+    for cd in conditions_ctx(E.prog, fn, e.call.bb, E.slicer):
+        m = e.mapping or {}
+        views = [(E.subst(v, m), oc) for v, oc in cd.views()] if cd.kind == 'bool' else [(E.subst(cd.value, m), cd.outcome)]
+        subj = E.subst(cd.subject, m) if cd.subject is not None else None
+        out.append((cd, views, subj))
+    return out
